@@ -1068,6 +1068,110 @@ func runStepM(st *scnState, step *scnStep, withMetrics bool) (res stepResult) {
 			if err == nil {
 				res.Value = fmt.Sprintf("inlet=%v cpu=%v baseboard=%v", info.Inlet, info.CPU, info.Baseboard)
 			}
+		case "wrappers":
+			// every typed helper of the connection (and the DCMI commanders over it), one after the other; each entry is
+			// name=<the value it returned, flattened like a response layer> or name=err:<class>
+			var parts []string
+			put := func(name string, l decLayer, err error) {
+				if err != nil {
+					parts = append(parts, name+"=err:"+classifyErr(err))
+				} else if l == nil {
+					parts = append(parts, name+"=ok")
+				} else {
+					parts = append(parts, name+"="+strings.ReplaceAll(showRsp(l), " ", ","))
+				}
+			}
+			type guider interface {
+				GetSystemGUID(context.Context) ([16]byte, error)
+				GetChannelAuthenticationCapabilities(context.Context, *ipmi.GetChannelAuthenticationCapabilitiesReq) (*ipmi.GetChannelAuthenticationCapabilitiesRsp, error)
+			}
+			var g guider = st.conn
+			if session != nil {
+				g = st.sess
+			}
+			if guid, err := g.GetSystemGUID(ctx); err != nil {
+				parts = append(parts, "GetSystemGUID=err:"+classifyErr(err))
+			} else {
+				parts = append(parts, "GetSystemGUID="+hex.EncodeToString(guid[:]))
+			}
+			{
+				r, err := g.GetChannelAuthenticationCapabilities(ctx, &ipmi.GetChannelAuthenticationCapabilitiesReq{ExtendedData: true, Channel: ipmi.ChannelPresentInterface, MaxPrivilegeLevel: ipmi.PrivilegeLevelAdministrator})
+				put("GetChannelAuthenticationCapabilities", r, err)
+			}
+			var sl bmc.Sessionless = st.conn
+			if session != nil {
+				sl = st.sess
+			}
+			dsl := dcmi.NewSessionlessCommander(sl)
+			{
+				r, err := dsl.GetDCMICapabilitiesInfoSupportedCapabilities(ctx)
+				put("DCMISupportedCapabilities", r, err)
+			}
+			{
+				r, err := dsl.GetDCMICapabilitiesInfoMandatoryPlatformAttrs(ctx)
+				put("DCMIMandatoryPlatformAttrs", r, err)
+			}
+			{
+				r, err := dsl.GetDCMICapabilitiesInfoOptionalPlatformAttrs(ctx)
+				put("DCMIOptionalPlatformAttrs", r, err)
+			}
+			{
+				r, err := dsl.GetDCMICapabilitiesInfoManageabilityAccessAttrs(ctx)
+				put("DCMIManageabilityAccessAttrs", r, err)
+			}
+			{
+				r, err := dsl.GetDCMICapabilitiesInfoEnhancedSystemPowerStatisticsAttrs(ctx)
+				put("DCMIEnhancedSystemPowerStatisticsAttrs", r, err)
+			}
+			if session != nil {
+				s := st.sess
+				{
+					r, err := s.GetSessionInfo(ctx, &ipmi.GetSessionInfoReq{Index: ipmi.SessionIndex(0)})
+					put("GetSessionInfo", r, err)
+				}
+				{
+					r, err := s.GetDeviceID(ctx)
+					put("GetDeviceID", r, err)
+				}
+				{
+					r, err := s.GetChassisStatus(ctx)
+					put("GetChassisStatus", r, err)
+				}
+				{
+					r, err := s.GetSDRRepositoryInfo(ctx)
+					put("GetSDRRepositoryInfo", r, err)
+				}
+				{
+					r, err := s.ReserveSDRRepository(ctx)
+					put("ReserveSDRRepository", r, err)
+				}
+				{
+					r, err := s.GetSensorReading(ctx, uint8(p(step.Cmd, 0)))
+					put("GetSensorReading", r, err)
+				}
+				if lvl, err := s.GetSessionPrivilegeLevel(ctx); err != nil {
+					parts = append(parts, "GetSessionPrivilegeLevel=err:"+classifyErr(err))
+				} else {
+					parts = append(parts, fmt.Sprintf("GetSessionPrivilegeLevel=%d", uint8(lvl)))
+				}
+				if lvl, err := s.SetSessionPrivilegeLevel(ctx, ipmi.PrivilegeLevelOperator); err != nil {
+					parts = append(parts, "SetSessionPrivilegeLevel=err:"+classifyErr(err))
+				} else {
+					parts = append(parts, fmt.Sprintf("SetSessionPrivilegeLevel=%d", uint8(lvl)))
+				}
+				put("ChassisControl", nil, s.ChassisControl(ctx, ipmi.ChassisControl(p(step.Cmd, 1))))
+				dsc := dcmi.NewSessionCommander(s)
+				{
+					r, err := dsc.GetPowerReading(ctx, &dcmi.GetPowerReadingReq{Mode: dcmi.SystemPowerStatisticsModeNormal})
+					put("DCMIGetPowerReading", r, err)
+				}
+				{
+					r, err := dsc.GetDCMISensorInfo(ctx, &dcmi.GetDCMISensorInfoReq{Type: ipmi.SensorTypeTemperature, Entity: ipmi.EntityID(0x41), InstanceStart: 1})
+					put("DCMIGetDCMISensorInfo", r, err)
+				}
+			}
+			res.Err = "nil"
+			res.Value = strings.Join(parts, " ")
 		case "sensorseq":
 			// one reader, polled once per entry of Script (each entry: the Get Sensor Reading response bytes, hex)
 			fsr := &ipmi.FullSensorRecord{}
